@@ -42,6 +42,9 @@ type FuncCtx struct {
 	initMode  bool
 	usedConsts map[*Term]bool
 	bigWrites  []bigWrite
+	closed     map[string]bool
+	bigHavocs  []*Term
+	safeAssump map[int]bool
 }
 
 func (fc *FuncCtx) note(s string) { fc.notes[s] = true }
@@ -51,7 +54,12 @@ func (fc *FuncCtx) heapInit(k string, s Sort) *Term {
 		panic(fmt.Sprintf("heap class %s used at two sorts: %s and %s", k, old, s))
 	}
 	fc.heapSorts[k] = s
-	return Const("h0!"+k, s)
+	h := Const("h0!"+k, s)
+	if !fc.closed[k] && fc.entry != nil {
+		fc.closed[k] = true
+		fc.heapClosure(k, h, fc.entry.alloc)
+	}
+	return h
 }
 
 func (fc *FuncCtx) get(st *State, k string, s Sort) *Term {
@@ -97,6 +105,8 @@ type Obligation struct {
 	replayed bool
 	plan     *replayPlan
 	small    []*Term // optional extra constraints asking for a small (replayable) model
+	override []*Term
+	useOverride bool
 }
 
 func (fc *FuncCtx) oblige(name, kind string, ids []string, pc, goal *Term, cl *Clause, descr string) *Obligation {
@@ -267,6 +277,7 @@ func fieldClass(t types.Type, i int) string {
 func (fc *FuncCtx) fieldAddr(base *Term, structT types.Type, i int) *Addr {
 	st := structT.Underlying().(*types.Struct)
 	ft := st.Field(i).Type()
+	noteClass(fieldClass(structT, i), ft)
 	return &Addr{kind: "field", class: fieldClass(structT, i), csort: SArr(SRef, SortOf(ft)), base: base, typ: ft}
 }
 
@@ -301,10 +312,15 @@ func (fc *FuncCtx) derefAddr(ref *Term, pointee types.Type) *Addr {
 		// the cell of an array pointer is a row of the element class
 		return &Addr{kind: "cell", class: elemClass(u.Elem()), csort: SArr(SRef, SArr(SBV64, SortOf(u.Elem()))), base: ref, typ: pointee}
 	}
+	noteClass("C:"+typeKey(pointee), pointee)
 	return &Addr{kind: "cell", class: "C:" + typeKey(pointee), csort: SArr(SRef, SortOf(pointee)), base: ref, typ: pointee}
 }
 
-func elemClass(elem types.Type) string { return "E:" + typeKey(elem) }
+func elemClass(elem types.Type) string {
+	k := "E:" + typeKey(elem)
+	noteClass(k, elem)
+	return k
+}
 
 func elemClassSort(elem types.Type) Sort {
 	return SArr(SRef, SArr(SBV64, SortOf(elem)))
